@@ -3,6 +3,7 @@
 mod cancel;
 mod fsmodel;
 mod kutil;
+mod lifecycle;
 mod smoke;
 mod streams;
 mod timers;
@@ -24,6 +25,7 @@ fn main() {
     scenarios.extend(smoke::scenarios());
     scenarios.extend(cancel::scenarios());
     scenarios.extend(fsmodel::scenarios());
+    scenarios.extend(lifecycle::scenarios());
     scenarios.extend(streams::scenarios());
     scenarios.extend(timers::scenarios());
     simcore::worker::main(&scenarios)
